@@ -86,7 +86,12 @@ def work_doc(_):
         for q, exp in DOC_CASES:
             if exp == "SKIP":
                 continue
-            r = drv.run(q)
+            try:
+                r = drv.run(q)
+            except DriverCrash as e:
+                ev.violations.append({"property": PID, "query": q, "reason": "driver crashed: " + e.report[-3000:],
+                                      "signature": "C03:doc-crash:" + q})
+                continue
             ev.case(key=("doc", q), nontrivial=True)
             ev.label("doc-example")
             if isinstance(exp, str):
